@@ -41,6 +41,10 @@ def gen_cases(tier, seed):
                     cases.append({'kind': kind, 'tx': t, 'rx': r, 'c': cstyle, 'p': pstyle, 'one_ctx': False, 'seed': seed * 7 + len(cases)})
         for k in (1, 2, 3):
             cases.append({'kind': kind, 'delay': k, 'c': 'plain', 'p': 'plain', 'one_ctx': False, 'seed': seed * 7 + len(cases)})
+        # a consumer (and a producer) that looks at the flag twice in one clock before acting on it
+        for t, r in ((1, 0), (2, 0), (3, 0), (0, 2), (2, 2), (0, 0)):
+            for pstyle in ('plain', 'twice'):
+                cases.append({'kind': kind, 'tx': t, 'rx': r, 'c': 'twice', 'p': pstyle, 'one_ctx': False, 'seed': seed * 7 + len(cases)})
         cases.append({'kind': kind, 'tx': 0, 'rx': 0, 'c': 'plain', 'p': 'plain', 'one_ctx': True, 'seed': seed * 7 + len(cases)})
     return cases
 
@@ -58,6 +62,7 @@ def source(cname, case):
     L = [pg.HEADER, f"class {cname}(Entity):", "    clk = Port.input(Bit)", "    rst = Port.input(Bit)",
          "    want_send = Port.input(Bit)", "    force = Port.input(Bit)", "    can_recv = Port.input(Bit)", "    pin = Port.input(Unsigned[2])",
          "    sent = Port.output(Bit, default=False)", "    got = Port.output(Bit, default=False)", "    dout = Port.output(Unsigned[2], default=0)",
+         "    status = Port.output(Bit, default=False)", "    pstatus = Port.output(Bit, default=False)",
          "    def architecture(self):", f"        f = {obj}",
          "        ctx = std.SequentialContext(std.Clock(self.clk), std.Reset(self.rst))"]
     if kind == 'flag':
@@ -80,8 +85,13 @@ def source(cname, case):
         cons_recv = ["            self.got <<= False", "            await self.can_recv", "            self.dout <<= await f.receive()",
                      "            self.got <<= True"]
         cons_with = cons_recv
-    prod = prod_plain if case['p'] == 'plain' else prod_coro
-    cons = {'plain': cons_plain, 'receive': cons_recv, 'with': cons_with}[case['c']]
+    cons_twice = ["            self.got <<= False", "            st = f.is_set()", "            self.status <<= f.is_set()",
+                  "            if self.can_recv and st:", "                f.clear()", f"                self.dout <<= {rd}", "                self.got <<= True"]
+    prod_twice = ["            self.sent <<= False", "            free = f.is_clear()", "            self.pstatus <<= f.is_clear()",
+                  "            if self.want_send and free:", f"                {send}"] + \
+                 (["                payload.next = self.pin"] if kind == 'flag' else []) + ["                self.sent <<= True"]
+    prod = {'plain': prod_plain, 'coro': prod_coro, 'twice': prod_twice}[case['p']]
+    cons = {'plain': cons_plain, 'receive': cons_recv, 'with': cons_with, 'twice': cons_twice}[case['c']]
     if case['one_ctx']:
         L += ["        @ctx", "        def both():"] + prod_plain + [c for c in cons_plain if 'self.got <<= False' not in c or True]
     else:
